@@ -195,6 +195,17 @@ func init() {
 	verifAPI["verifIteInt"] = func(fr *frame, args []value) value {
 		return fromExpr(mkIte(toExpr(args[0]), toExpr(args[1]), toExpr(args[2])), types.Int)
 	}
+	verifAPI["verifNondetCPUSet"] = func(fr *frame, args []value) value {
+		w := int(asInt64(args[1]))
+		if w <= 0 || w > cpusetWidth {
+			panic(unsupported{"verifNondetCPUSet: width out of range"})
+		}
+		e := fr.i.newNondet(strArg(args[0]), bvSort(w))
+		if e.isConst() {
+			return cpusetv{bvConst(cpusetWidth, e.bv)}
+		}
+		return cpusetv{bvZeroExt(cpusetWidth-w, e)}
+	}
 	verifAPI["verifParam"] = func(fr *frame, args []value) value {
 		name := strArg(args[0])
 		v, ok := fr.i.lp.cfg.params[name]
